@@ -4,7 +4,7 @@ func init() {
 	for _, n := range []string{"NewParagraphReader", "decode", "decodeStruct", "decodeStructValue", "decodeStructValueStruct", "decodeStructValueSlice",
 		"decodeSlice", "Unmarshal", "NewDecoder", "UnpackFromParagraph", "ConvertToParagraph", "convertToParagraph", "marshalStructValue",
 		"marshalStructValueStruct", "marshalStructValueSlice", "Marshal", "NewEncoder", "OrderDSCForBuild", "ParseDsc", "ParseChanges", "ParseControl",
-		"ParseBinaryIndex", "ParseSourceIndex", "FileHashFromHasher", "checkListedFilename"} {
+		"ParseBinaryIndex", "ParseSourceIndex", "FileHashFromHasher", "checkListedFilename", "ParseDscFile", "ParseChangesFile", "ParseControlFile"} {
 		fingerprints["control."+n] = fpSpec{dir: "control", name: n}
 	}
 	for _, m := range [][2]string{{"Paragraph", "Set"}, {"Paragraph", "WriteTo"}, {"Paragraph", "Update"}, {"ParagraphReader", "Next"}, {"ParagraphReader", "All"},
@@ -14,7 +14,7 @@ func init() {
 		{"DSC", "Copy"}, {"DSC", "Move"}, {"DSC", "Remove"}, {"DSC", "AbsFiles"}, {"DSC", "checkFiles"}, {"DSC", "HasArchAll"}, {"DSC", "Maintainers"}, {"DSC", "DebianSource"},
 		{"Changes", "Copy"}, {"Changes", "Move"}, {"Changes", "Remove"}, {"Changes", "AbsFiles"}, {"Changes", "checkFiles"},
 		{"BinaryIndex", "SourcePackage"}, {"BestChecksums", "Checksums"}, {"SourceParagraph", "Maintainers"},
-		{"Paragraph", "getDependencyField"}, {"Paragraph", "getOptionalDependencyField"}} {
+		{"Changes", "GetDSC"}, {"Paragraph", "getDependencyField"}, {"Paragraph", "getOptionalDependencyField"}} {
 		fingerprints["control."+m[0]+"."+m[1]] = fpSpec{dir: "control", recv: m[0], name: m[1]}
 	}
 }
